@@ -149,6 +149,7 @@ Q_C07 == {[BaseQ EXCEPT !.items = its, !.distinct = di, !.hastop = ht, !.top = 1
             its \in {s \in SeqsBetween(ItemsHdr, 1, 2) : OneUnnest(s) /\ ~(\E k \in 1..Len(s) : IsAggItem(s[k]))}, di \in {"none", "uniq", "count"}, ht \in BOOLEAN}
 \* an alias after an item whose top-level node is a boolean operator
 Q_C07bool == {[BaseQ EXCEPT !.items = its] : its \in {<< <<"as", E(<<"or", Fa(1), Fa(2)>>), "ob">>, E(Fa(2)) >>, << E(Fa(1)), <<"as", E(<<"and", Fa(1), Fa(2)>>), "nd">> >>, << <<"as", E(<<"eq", Fa(1), Fa(2)>>), "qq">> >>}}
+Q_C07exc == {[BaseQ EXCEPT !.hasexc = TRUE, !.exc = ex, !.distinct = di] : ex \in {<<1>>, <<2, 1>>, <<3>>}, di \in {"uniq", "count"}}
 Q_C07agg == {[BaseQ EXCEPT !.items = its] : its \in {<< <<"agg", "COUNT", <<"int", 1>> >>, <<"star">> >>, << <<"as", <<"agg", "MAX", Fa(2)>>, "mx">>, <<"agg", "COUNT", <<"int", 1>> >> >>, << E(L(120)), <<"agg", "MIN", Fa(1)>> >>}}
 Q_C07join == {[BaseQ EXCEPT !.items = its, !.distinct = di, !.join = "left", !.jkeys = << <<1, 1>> >>] :
                 its \in SeqsBetween({E(Fa(1)), E(Fb(1)), E(Fb(3)), <<"bstar">>, <<"star">>, <<"as", E(Fb(2)), "bb">>}, 1, 2), di \in {"none", "count"}}
@@ -313,6 +314,9 @@ Q_C03key  == {[BaseQ EXCEPT !.items = <<E(Fa(1)), Agg("COUNT", <<"int", 1>>)>>, 
 Q_C03keys == {[BaseQ EXCEPT !.items = <<Agg("MAX", Fa(2)), Agg("COUNT", <<"int", 1>>)>>, !.hasgroup = TRUE, !.group = <<<<"num", Fa(1)>> >>]}
 \* numeric strings of different widths and signs: their text order differs from their numeric order (9 < 10 < 100, -5 < 9)
 R_numw == {<<k, v>> : k \in {S(97)}, v \in {D(57), Str(<<49, 48>>), Str(<<49, 48, 48>>), Str(<<45, 53>>)}}
+\* a non-aggregate column whose first value in a group is falsy ("") and a later one differs: still an error
+R_keyse == {<<k, v>> : k \in {S(97)}, v \in {Str(<<>>), S(113)}}
+Q_C03const == {[BaseQ EXCEPT !.items = <<E(Fa(2)), Agg("COUNT", <<"int", 1>>)>>, !.hasgroup = g # <<>>, !.group = g] : g \in {<<>>, <<Fa(1)>>}}
 Q_C03med == {[BaseQ EXCEPT !.items = <<Agg(f, Fa(2)), E(Fa(1))>>, !.hasgroup = g # <<>>, !.group = g] :
                f \in {"MEDIAN", "VARIANCE", "AVG", "MIN", "MAX", "SUM"}, g \in {<<>>, <<Fa(1)>>}}
 Q_C03bad == {[BaseQ EXCEPT !.items = << <<"aggplus", "MAX", Fa(2)>>, E(Fa(1))>>, !.hasgroup = TRUE, !.group = <<Fa(1)>>],
